@@ -1,4 +1,97 @@
+import Mav.Proofs.Node2
+import Mav.Props.C11
 import Mav.Spec.Fanout
+/-
+  C13 — a stalled or failing channel neither stalls the node nor dies silently. Property theorems only.
+  Model: Mav/Model/Node.lean after `fix: keep a channel's writer running after a failed write`.
+  A transport that stops accepting writes is a channel whose writer stays in `writing it` forever (wOk / wFail never
+  fire for it); a failing transport is `wFail`; an unencodable item is a `wFail` too (the encoder runs in the writer).
+-/
 namespace Mav.C13
-theorem placeholder : True := trivial
+open Mav Nd
+
+/-- **C13 (the node loop never waits for a channel).** A dispatch is enabled in the running node whatever the state of
+    any channel — full queue, writer blocked in the transport, channel closing. `Channel.write` never blocks. -/
+theorem dispatch_never_blocks (s : St) (h : s.npc = .loop) (t : Tgt) (it : Item) (pick : Cid → Bool) :
+    Step s (dispatch s t it pick) := Step.dispatch s t it pick h
+
+/-- **C13 (isolation).** What a dispatch does to channel c depends on the membership list, the target and c's own state
+    only: no other channel's queue, writer or transport can influence it. -/
+theorem dispatch_local (s s2 : St) (t : Tgt) (it : Item) (pick : Cid → Bool) (c : Cid)
+    (hm : s2.members = s.members) (hc : s2.chans c = s.chans c) :
+    (dispatch s2 t it pick).chans c = (dispatch s t it pick).chans c := by
+  simp [dispatch, enq, hm, hc]
+
+/-- **C13 (other channels keep being served).** The writer of a channel takes its next item whatever any other channel is
+    doing: the step's premises mention channel c only. -/
+theorem writer_independent (s : St) (c : Cid) (it : Item) (rest : List Item)
+    (h1 : (s.chans c).wp = .idle) (h2 : (s.chans c).cp ≠ .notStarted) (h3 : (s.chans c).queue = it :: rest) :
+    ∃ s', Step s s' ∧ (s'.chans c).wp = .writing it ∧ ∀ c', c' ≠ c → s'.chans c' = s.chans c' :=
+  ⟨_, Step.wDequeue s c it rest h1 h2 h3, by simp [upd], fun c' h => by simp [upd, h]⟩
+
+/-- **C13 (bounded backlog).** In every reachable state a channel holds at most 64 queued items. -/
+theorem backlog_bounded (inputs : Cid → List RdRes) (s : St) (hr : Reach (init inputs) s) (c : Cid) :
+    (s.chans c).queue.length ≤ 64 := (reach_faninv inputs s hr c).bound
+
+/-- **C13 (discarded for that channel only, order preserved).** A dispatch to a full (or closing) channel leaves its queue
+    and everything it accepted untouched; the item is only recorded as offered. -/
+theorem dispatch_full (s : St) (t : Tgt) (it : Item) (pick : Cid → Bool) (c : Cid)
+    (hq : ¬ (s.chans c).queue.length < qcap) :
+    ((dispatch s t it pick).chans c).queue = (s.chans c).queue ∧ ((dispatch s t it pick).chans c).acc = (s.chans c).acc := by
+  simp only [dispatch, enq]
+  by_cases h1 : (s.members.contains c && t.hits c) = true
+  · simp only [h1, if_true]
+    have : (decide ((s.chans c).queue.length < qcap) && (!(s.chans c).ctxDone || pick c)) = false := by simp [hq]
+    simp only [this]; exact ⟨rfl, rfl⟩
+  · simp only [h1]; exact ⟨rfl, rfl⟩
+
+/-- order on the wire of a channel that lost items is still the dispatch order (C11.wire_sublist_of_offered) -/
+theorem lossy_channel_keeps_order (inputs : Cid → List RdRes) (s : St) (hr : Reach (init inputs) s) (c : Cid) :
+    (C11.wire (s.chans c)).Sublist (s.chans c).seen := C11.wire_sublist_of_offered inputs s hr c
+
+/-- **C13 (a failed write does not kill the writer).** After a failed transport write or an unencodable item the writer is
+    back at its loop head and the rest of the queue is intact … -/
+theorem writer_survives_failure (s : St) (c : Cid) (it : Item) (h : (s.chans c).wp = .writing it) :
+    ∃ s', Step s s' ∧ (s'.chans c).wp = .idle ∧ (s'.chans c).queue = (s.chans c).queue ∧
+      (s'.chans c).done = (s.chans c).done ++ [(it, false)] :=
+  ⟨_, Step.wFail s c it h, by simp [upd], by simp [upd], by simp [upd]⟩
+
+/-- **C13 (never open while discarding all output).** In every reachable state a channel that is open — `Channel.run` is
+    waiting for the reader or the context, no close event decided — has a live writer goroutine: idle (about to take the
+    next queued item) or inside a transport write. The writer ends only after `Channel.run` asked it to, which
+    happens only on the path that ends in the close event. -/
+theorem open_channel_has_live_writer (inputs : Cid → List RdRes) (s : St) (hr : Reach (init inputs) s) (c : Cid)
+    (ho : (s.chans c).cp = .wait) : (s.chans c).wp = .idle ∨ ∃ it, (s.chans c).wp = .writing it := by
+  have hw := reach_wt inputs s hr c (Or.inr ho)
+  have ha := (reach_faninv inputs s hr c).alive
+  cases hwp : (s.chans c).wp with
+  | idle => exact Or.inl rfl
+  | writing it => exact Or.inr ⟨it, rfl⟩
+  | sendDone => rw [ha (Or.inl hwp)] at hw; cases hw
+  | exited => rw [ha (Or.inr hwp)] at hw; cases hw
+
+/-- … and a writer that has stopped belongs to a channel whose close event has been decided, is being decided, or that
+    was never opened to the application (created while the node was closing). -/
+theorem stopped_writer_means_closing (inputs : Cid → List RdRes) (s : St) (hr : Reach (init inputs) s) (c : Cid)
+    (h : (s.chans c).wp = .sendDone ∨ (s.chans c).wp = .exited) :
+    (s.chans c).cp ≠ .wait ∧ (s.chans c).cp ≠ .notStarted := by
+  have ha := (reach_faninv inputs s hr c).alive h
+  have hw := reach_wt inputs s hr c
+  constructor
+  · intro hc; rw [hw (Or.inr hc)] at ha; cases ha
+  · intro hc; rw [hw (Or.inl hc)] at ha; cases ha
+
+/-- non-vacuity: a reachable state in which a write has failed and the channel is still open with a live writer -/
+example : ∃ s, Reach (init (fun _ => [])) s ∧ (s.chans 0).cp = .wait ∧ (s.chans 0).done = [(5, false)] ∧ (s.chans 0).wp = .idle := by
+  let i : Cid → List RdRes := fun _ => []
+  have r0 : Reach (init i) (init i) := .refl
+  have r1 := Reach.step r0 (Step.newChan (init i) 0 rfl rfl rfl (by simp [init]))
+  have r2 := Reach.step r1 (Step.dispatch _ .all 5 (fun _ => true) rfl)
+  have r3 := Reach.step r2 (Step.wDequeue _ 0 5 [] (by simp [dispatch, enq, upd, init, Tgt.hits, qcap, Gen.writeBufferSize])
+    (by simp [dispatch, enq, upd, init, Tgt.hits, qcap, Gen.writeBufferSize])
+    (by simp [dispatch, enq, upd, init, Tgt.hits, qcap, Gen.writeBufferSize]))
+  have r4 := Reach.step r3 (Step.wFail _ 0 5 (by simp [upd]))
+  exact ⟨_, r4, by simp [dispatch, enq, upd, init, Tgt.hits, qcap, Gen.writeBufferSize],
+    by simp [dispatch, enq, upd, init, Tgt.hits, qcap, Gen.writeBufferSize], by simp [upd]⟩
+
 end Mav.C13
